@@ -54,6 +54,9 @@ def check_mapping(a, b, parent, mapping, before_a, before_b, real_handles=True) 
             f.append(Fail("image", "child-order", f"B node {bi}: {got[2]} want {[mp[c] for c in children]}"))
         if got[3] != meta:
             f.append(Fail("image", "metadata", f"B node {bi}: {got[3]} want {meta}"))
+        # a recorded count below a linked port (a builder lowered it afterwards) contradicts the store's own
+        # convention "if port i is connected, ports 0..i exist": the image then has the ports its links need
+        nout = max([nout] + [so + 1 for (s_, so, _, _) in links_b if s_ == bi])
         if got[5] != nout:
             f.append(Fail("image", "num-out-ports", f"B node {bi}: {got[5]} want {nout}"))
         # the handles given back (mapping values, children listings) expose the node's metadata too
@@ -191,14 +194,30 @@ def check_wrapper(case) -> list[Fail]:
         wires = list(host.inputs())[: len(tr)]
     meta = case.get("meta")
     if kind == "nested":
-        b = Dfg(*tr)
+        variant = case.get("just", 0) % 4
+        if variant == 1:
+            # the generic dataflow builder: its set_outputs records no output count on the root (it stays 0)
+            from hugr.build.dfg import DfBase
+
+            b = DfBase(ops.DFG(tr))
+        else:
+            b = Dfg(*tr)
         outs = list(b.inputs())
+        shrink = None
+        if variant >= 2 and row:
+            # a nested child whose outputs are set again to the empty row after its output port 0 got a
+            # consumer: the child's recorded output count is 0 while its port 0 is linked
+            shrink = b.add_nested(outs[0])
+            shrink.set_outputs(*shrink.inputs())
+            outs[0] = shrink[0]
         for i, n in enumerate(row):
             if n == "bool" and case.get("nots", 0) > 0:
                 outs[i] = b.add_op(Not, outs[i], metadata=meta)[0]
         if case.get("order") and len(b.hugr) > 3:
             b.add_state_order(b.input_node, b.output_node)
         b.set_outputs(*outs)
+        if shrink is not None:
+            shrink.set_outputs()
         sa, sb = store.snapshot(host.hugr), store.snapshot(b.hugr)
         node = host.insert_nested(b, *wires)
         root_b = b.parent_node
@@ -280,5 +299,5 @@ SUBS = [
     Sub("raw", check_raw, fuzz_runs=1500, strategy=raw_strategy, nontrivial=nt_raw, classes=lambda c: sorted(b_flags(c)[0]), n_quick=1600, n_thorough=4000),
     Sub("orphans", check_orphans, strategy=lambda tier: st.fixed_dictionaries({"a": st.fixed_dictionaries({"root": st.just("dfg"), "steps": st.lists(store.step_strategy(False), max_size=6)}), "b": store.churn_strategy(14).map(lambda c: dict(c, steps=[x for x in c["steps"] if x[0] != "delete_node"])), "parent": st.integers(0, 20)}),
         nontrivial=lambda c: True, n_quick=150, n_thorough=800),
-    Sub("wrappers", check_wrapper, strategy=lambda tier: wrapper_strategy, nontrivial=lambda c: len(c["row"]) >= 1, classes=lambda c: [c["kind"], "host:" + c.get("host", "dfg")], n_quick=500, n_thorough=2000),
+    Sub("wrappers", check_wrapper, strategy=lambda tier: wrapper_strategy, nontrivial=lambda c: len(c["row"]) >= 1, classes=lambda c: [c["kind"], "host:" + c.get("host", "dfg")] + ([["standard-builder", "generic-builder", "child-with-shrunk-output-count", "child-with-shrunk-output-count"][c.get("just", 0) % 4]] if c["kind"] == "nested" else []), n_quick=500, n_thorough=2000),
 ]
